@@ -86,6 +86,9 @@ pub enum Op {
     Extend(Vec<String>),
     Clear,
     Collect,
+    /// collect() from an iterator without an exact size hint (filter that keeps everything, chained
+    /// with an empty iterator, flat_map)
+    CollectInexact(u8),
     GetMut(String),
     CloneList,
     IterMutTouch,
@@ -105,6 +108,7 @@ impl Op {
             Op::Extend(_) => "extend",
             Op::Clear => "clear",
             Op::Collect => "collect",
+            Op::CollectInexact(_) => "collect(inexact size hint)",
             Op::GetMut(_) => "get_mut",
             Op::CloneList => "clone",
             Op::IterMutTouch => "iter_mut",
@@ -220,7 +224,7 @@ fn apply_model(model: &mut Model, op: &Op, next_id: &mut u64) {
             }
         }
         Op::Clear => model.clear(),
-        Op::Collect | Op::CloneList => {}
+        Op::Collect | Op::CollectInexact(_) | Op::CloneList => {}
         Op::GetMut(n) => {
             if let Some(p) = model.iter().position(|(m, _)| m == n) {
                 model[p].1 = *next_id;
@@ -309,6 +313,14 @@ fn apply_real<T: Item>(
         Op::Collect => {
             let old = std::mem::take(list);
             *list = old.into_iter().collect();
+        }
+        Op::CollectInexact(how) => {
+            let old = std::mem::take(list);
+            *list = match how % 3 {
+                0 => old.into_iter().filter(|_| true).collect(),
+                1 => old.into_iter().flat_map(|x| std::iter::once(x)).collect(),
+                _ => old.into_iter().skip_while(|_| false).collect(),
+            };
         }
         Op::CloneList => {
             let c = list.clone();
@@ -470,6 +482,9 @@ fn all_ops(model: &Model, alphabet: &[String]) -> Vec<Op> {
     ops.push(Op::Extend(vec![]));
     ops.push(Op::Clear);
     ops.push(Op::Collect);
+    for how in 0..3 {
+        ops.push(Op::CollectInexact(how));
+    }
     ops.push(Op::CloneList);
     ops.push(Op::IterMutTouch);
     ops
@@ -710,7 +725,13 @@ fn random_op(rng: &mut Rng, model: &Model, pool: &[String]) -> Op {
                     continue;
                 }
             }
-            23 => Op::Collect,
+            23 => {
+                if rng.coin() {
+                    Op::Collect
+                } else {
+                    Op::CollectInexact(rng.below(3) as u8)
+                }
+            }
             24 => Op::GetMut(present(rng)),
             25 => Op::CloneList,
             26 => Op::IterMutTouch,
